@@ -64,7 +64,6 @@ Fixpoint of_arith (lim off : option Z) (a : arith) : tree :=
   | ALim => L [I 0; of_optZ lim]
   | AOff => L [I 0; of_optZ off]
   | AAdd x y => L [I 1; of_arith lim off x; of_arith lim off y]
-  | AUnset => L [I 2]
   end.
 Definition of_preds (lim off : option Z) (ps : list pred) : tree :=
   L (map (fun p => L [of_cmp (fst p); of_arith lim off (snd p)]) ps).
